@@ -391,9 +391,11 @@ def run(ctx):
     ctx.assumptions += ["TLC, the CommunityModules Json reader and the driver's projection (typed BPSV values rendered as text) are trusted",
                         "strings are drawn from the grid of Ribbit.tla; its attributes (separator, trailing white space, non-ASCII, numeric / hex "
                         "canon, time and string order of timestamps) are re-derived in Python at every run",
-                        "time: the only deadlines are 30 s for a valid probe and 45 s (4.5x the server's 10 s read time-out) before a raw "
-                        "connection is recorded as still open",
-                        "server and clients share one process (library entry point); the flood family relies on that to exhaust descriptors"]
+                        "time is counted in 100 ms ticks of a task on the server's own runtime (a paused process or a starved server thread "
+                        "stops that clock): a valid probe must be answered within 300 ticks; a raw connection is recorded as still open only "
+                        "after 450 ticks (4.5x the server's 10 s read time-out) without any socket of its group being answered or closed; a "
+                        "probe that failed while the server clock lost > 3 s against the wall clock is repeated",
+                        "server and clients share one process (library entry points); the flood family relies on that to make accept() fail with EMFILE"]
     return lib.finish(ctx, "model_checking",
                       rule="programs = initial states (static families) or complete client-step interleavings (family conc) of MC_Ribbit; "
                            "distinct = distinct program texts (md5); non-trivial = at least one request reaches a running server")
